@@ -62,6 +62,8 @@ def fixed_payloads():
     ps += [["u64", str(v)] for v in (0, 1, 2 ** 63, 2 ** 64 - 1)]
     ps += [["i32", str(v)] for v in (-2 ** 31, -1, 0, 5, 2 ** 31 - 1)]
     ps += [["bool", "true"], ["bool", "false"], ["unit"], ["marker"], ["arr0"]]
+    # values that contain handles: n nested Arcs (every depth up to 140 — any internal nesting limit must not exist —, then deeper)
+    ps += [["chain", str(n)] for n in list(range(0, 141)) + [200, 255, 256, 257, 500, 1000]]
     ps += [["str", "=" + w] for w in WORDS[:4]]
     ps += [["pair", "0", "="], ["pair", "4294967295", "=xyz"], ["pair", "7", "=ab"]]
     ps += [["seq", str(len(x))] + [str(i) for i in x] for x in ([], [1], [1, 2, 3], [65535, 0, 9, 8, 7, 6, 5, 4])]
@@ -249,7 +251,7 @@ def evaluate(lines, impl, model):
 def explore(ctx, binpath, drv, payloads):
     """pass 1: k = 0 for every payload and mode (learn the number of callbacks n from BOTH sides);
     pass 2: every k in 1 .. n+1 (n+1 = one past the last callback: no failure happens)."""
-    first = ["%s 0 %s" % (mode, " ".join(p)) for p in payloads for mode in ("ser", "de", "dip")]
+    first = ["%s 0 %s" % (mode, " ".join(p)) for p in payloads for mode in ("ser", "de", "dip") if mode == "ser" or p[0] != "chain"]
     impl, model = run_lines(binpath, drv, first)
     r1 = evaluate(first, impl, model)
     second = []
